@@ -9,10 +9,10 @@
     pred normalize <filt>                      -> DNF | None       (_DNF.normalize)
     pred combine a=<DNF|None> b=<DNF|None>     -> DNF | None       (_DNF.combine)
     pred evalrow mode=2|3|dnf3 row=1,N,3 <sexpr|DNF>  -> 1|0       (pandas / Kleene-kept reading of one row)
-    pred mergeside how=… side=… avail=… and=… dep=…   -> 1|0       (Merge._filter_passthrough_available)
+    pred mergeside how=… side=… lcoll=… rcoll=… avail=… and=… dep=…   -> 1|0       (Merge._filter_passthrough_available)
     pred mergepush side=… lcoll=… rcoll=…      -> LR bits          (Merge._simplify_up side selection)
     pred pushavail nfilters=… nparents=… inpred=…     -> 1|0       (is_filter_pushdown_available)
-    pred rebuild ops=o0,self,o2                -> new,self,o2      (Filter._simplify_up: type(parent)(new, *operands[1:]))
+    pred rebuild ops=o0,self,o2                -> o0,new,o2        (Filter._simplify_up: parent.substitute(self, new))
 
   sexpr: (and x y) (or x y) (not x) or an atom token.  Atom tokens: a<i> (abstract);
   c<col>:<op>:<const>, i<col>:<c,c,…> (isin; I = not in), n<col> (isna; N = notna), k<col>:<op>:<col2>.
@@ -200,9 +200,10 @@ def handle : List String → Option String
   | "pred" :: "mergeside" :: rest =>
       let kv := kvs rest
       some (match (get kv "how").bind parseHow, (get kv "side").bind parseSide, getBool kv "avail",
-                  getBool kv "and", getBool kv "dep" with
-      | some how, some pc, some avail, some isAnd, some dep => bool01 (mergeFilterAvail avail how pc isAnd dep)
-      | _, _, _, _, _ => "BAD params")
+                  getBool kv "and", getBool kv "dep", getBool kv "lcoll", getBool kv "rcoll" with
+      | some how, some pc, some avail, some isAnd, some dep, some l, some r =>
+          bool01 (mergeFilterAvail avail how pc l r isAnd dep)
+      | _, _, _, _, _, _, _ => "BAD params")
   | "pred" :: "mergepush" :: rest =>
       let kv := kvs rest
       some (match (get kv "side").bind parseSide, getBool kv "lcoll", getBool kv "rcoll" with
@@ -212,7 +213,7 @@ def handle : List String → Option String
       | _, _, _ => "BAD params")
   | "pred" :: "rebuild" :: rest =>
       some (match get (kvs rest) "ops" with
-      | some ops => joinWith "," (rebuildFirst (parseStrs ops) "new")
+      | some ops => joinWith "," (substituteOperand (parseStrs ops) "self" "new")
       | none => "BAD params")
   | "pred" :: "pushavail" :: rest =>
       let kv := kvs rest
